@@ -530,7 +530,7 @@ func typeCase(rt *rapid.T) c04Case {
 	}
 	// every 2-byte field is a code, count or string length
 	var as []ref.Annot
-	for i := 0; i+2 <= len(valid) && i < 4000; i += 2 {
+	for i := 0; i+2 <= len(valid) && i < 3000; i += 2 {
 		as = append(as, ref.Annot{Off: i, Width: 2, Kind: "code"})
 	}
 	return c04Case{args: []string{"datatype.ReadDataType", strconv.Itoa(int(v))}, valid: valid, annots: as}
@@ -773,7 +773,20 @@ func c04Property(rt *rapid.T) {
 	if family == "frame" && rapid.Bool().Draw(rt, "spliceOther") {
 		other = frameCase(rt).valid
 	}
-	input, what := mutate(rt, c.valid, c.annots, other)
+	var input []byte
+	var what string
+	if family == "type" && len(c.valid) > 3000 {
+		// a deep descriptor is altered within its first 3000 bytes only, so that the decoder's failure happens at most
+		// 1500 levels down: the library re-formats the whole error chain at every level on the way up, which is
+		// quadratic in the depth of the failure (20000 levels: minutes of CPU; terminating, hence not this property's
+		// business, but indistinguishable from non-termination within any practical budget)
+		head, tail := c.valid[:3000], c.valid[3000:]
+		input, what = mutate(rt, head, c.annots, head)
+		input = append(append([]byte{}, input...), tail...)
+		what += "+deep-tail"
+	} else {
+		input, what = mutate(rt, c.valid, c.annots, other)
+	}
 	if family == "segment" && fixCRC {
 		hl, _ := strconv.Atoi(c.args[2])
 		input = refreshSegmentCRCs(input, hl)
